@@ -104,6 +104,15 @@ func (sc *specCtx) trT(x *core.Sexp) (string, types.Type) {
 		return sc.trT(body)
 	}
 	switch h {
+	case "ref":
+		// (ref T e): e as a pointer to the package's named type T (for quantified references)
+		if len(args) == 2 && args[0].IsAtom() {
+			if tn := g.P.SSA.Type(args[0].Atom); tn != nil {
+				return sc.tr(args[1]), types.NewPointer(tn.Type())
+			}
+		}
+		sc.fail("ref: unknown type %s", args[0])
+		return "0", nil
 	case "global":
 		// (global NAME): the value of a package-level variable in the current state
 		if len(args) == 1 && args[0].IsAtom() {
@@ -556,6 +565,20 @@ func (sc *specCtx) resolve(name string) *Term {
 		if fv.Name() == name {
 			return g.load(sc.st, g.locOfPointer(fr.val(fv)))
 		}
+	}
+	// $&name: the address of an address-taken local (e.g. a strings.Builder)
+	if strings.HasPrefix(name, "&") {
+		for _, b := range fr.fn.Blocks {
+			for _, ins := range b.Instrs {
+				if a, ok := ins.(*ssa.Alloc); ok && a.Comment == name[1:] {
+					if t, ok := fr.env[a]; ok {
+						return t
+					}
+				}
+			}
+		}
+		sc.fail("cannot resolve $%s", name)
+		return nil
 	}
 	// address-taken locals
 	for _, b := range fr.fn.Blocks {
